@@ -21,6 +21,14 @@ partial def evalTerm : Sexp → Except String (Option Err)
   | .list (.atom "J" :: xs) => do pure (join (← evalList xs))
   | .list [.atom "X", a, x] => do pure (wrapAnnot (← evalTerm x) (← nat a))
   | .list [.atom "P", x] => do pure (parsePanicErr (← evalTerm x))
+  -- errors.Unwrap of a *Stack: the inner node (the stack without its most recent item); other values unchanged
+  | .list [.atom "UWS", x] => do
+      match ← evalTerm x with
+      | some (.stack cs) =>
+        match cs.toList with
+        | _ :: y :: r => pure (some (.stack (ErrList.ofErrs (y :: r))))
+        | _ => pure none
+      | o => pure o
   | .list [.atom "V", x] => evalTerm x   -- the operand was looked at (Unwind, Is, As) before use: no effect
   | s => throw s!"bad-term {repr s}"
 where
